@@ -80,7 +80,14 @@ func (s *Snapshot) AddProbes(verifDir string) error {
 	if out, err := exec.Command("rsync", "-a", "--exclude", "*.go", src+"/", filepath.Join(s.Dir, "verif_probes")+"/").CombinedOutput(); err != nil {
 		return fmt.Errorf("probes rsync: %v: %s", err, out)
 	}
-	return nil
+	// hand-written Go sources of a probe are kept as *.go.in (so that they are not part of the /verif module) and get
+	// their real name inside the snapshot
+	return filepath.Walk(filepath.Join(s.Dir, "verif_probes"), func(p string, info os.FileInfo, err error) error {
+		if err != nil || info.IsDir() || !strings.HasSuffix(p, ".go.in") {
+			return err
+		}
+		return os.Rename(p, strings.TrimSuffix(p, ".in"))
+	})
 }
 
 func (s *Snapshot) Close() {
